@@ -10,11 +10,11 @@ EXTENDS Stream
 
 CONSTANTS Alphabet, MaxLen, StrCap
 
-VARIABLES s, r, sc, eeof, eflt
-vars == <<s, r, sc, eeof, eflt>>
+VARIABLES s, r, sc, eeof, eflt, dsteps
+vars == <<s, r, sc, eeof, eflt, dsteps>>
 
 Init == /\ s = <<>> /\ r = RStart /\ sc = 0
-        /\ eeof = RefOf(r, 0, "EOF") /\ eflt = RefOf(r, 0, "FAULT")
+        /\ eeof = RefOf(r, 0, "EOF") /\ eflt = RefOf(r, 0, "FAULT") /\ dsteps = StepsOf(s, eeof)
 
 Next ==
   /\ Len(s) < MaxLen
@@ -26,6 +26,7 @@ Next ==
        /\ sc' = IF InStr(r.m.lx) THEN sc + 1 ELSE 0
        /\ eeof' = RefOf(r', Len(s'), "EOF")
        /\ eflt' = RefOf(r', Len(s'), "FAULT")
+       /\ dsteps' = StepsOf(s', eeof')   \* what a positional decoder over the same bytes must report (module DecObj)
 
 Spec == Init /\ [][Next]_vars
 
@@ -43,5 +44,7 @@ CountOK == Len(r.vals) = r.m.nv
 \* a clean end of stream is only possible when nothing is pending
 CleanEOF == ("EOF" \in eeof.term) => (Idle(r.m) \/ OpenScalar(r.m))
 \* the stream with all values removed contains only blanks up to the point of the error / pending value
+\* a clean end of stream = every value decoded and nothing but blanks behind the last one
+CleanEnd == ("EOF" \in eeof.term) <=> dsteps.ct[dsteps.n + 1]
 Terminals == eeof.term \subseteq {"EOF", "ERR"} /\ eflt.term \subseteq {"FAULT", "ERR"} /\ eeof.term # {} /\ eflt.term # {}
 =============================================================================
